@@ -31,9 +31,9 @@ func zzC11_op() {
 	op, depth := zzPart()%8, 2+zzPart()/8
 	src := zzReaderOf(zzBytes("d", 48))
 	if zzPart() >= 16 {
-		// Read over a source that delivers arbitrary short reads: the buffered reader then returns fewer bytes than asked
+		// Read over a source whose first two reads deliver arbitrary counts: the buffered reader then returns fewer bytes than asked
 		op, depth = 2, 2+zzPart()-16
-		src = zzChunkedReaderOf(zzBytes("d", 48), "c")
+		src = zzChunkedReaderOf2(zzBytes("d", 16), "c")
 	}
 	br := bufio.NewReaderSize(src, 4096)
 	r := &Reader{br: br}
@@ -188,5 +188,108 @@ func zzC11_top() {
 	if !over {
 		zzAssert(pos == 72, "after a top-level box the reader stands exactly at the next top-level box")
 	}
+	zzReached("end")
+}
+
+// (d) payload delivery to a callback that reads with a buffer of its own size (as bufio or io.ReadAll do): the XMP
+// packet of the xpacket uuid box arrives whole, read after read, and then io.EOF; the stream then stands at the next box
+func zzC11_xpacket_N() int { return 3 }
+func zzC11_xpacket() {
+	bufSize := []int{64, 7, 20}[zzPart()]
+	pay := zzBytes("p", 20)
+	const N = 24 + 8 + 16 + 20 + 16
+	z := &zzBuf{b: make([]byte, N)}
+	z.str(0, zzFtyp)
+	z.box(24, 8+16+20, "uuid")
+	z.str(32, zzUUIDs[1])
+	for i := range pay {
+		z.b[48+i] = pay[i]
+	}
+	z.box(68, 16, "free")
+	src := zzReaderOf(z.b)
+	r := NewReader(bufio.NewReaderSize(src, 4096))
+	var got []byte
+	var last error
+	calls := 0
+	r.XMPReader = func(rd io.Reader) error {
+		calls++
+		buf := make([]byte, bufSize)
+		for k := 0; k < 6; k++ {
+			n, err := rd.Read(buf)
+			got = append(got, buf[:n]...)
+			if err != nil {
+				last = err
+				break
+			}
+		}
+		return nil
+	}
+	zzAssert(r.ReadFTYP() == nil, "ftyp")
+	err := r.ReadMetadata()
+	zzAssert(err == nil && calls == 1, "the xpacket uuid box is handed to the XMP callback once")
+	same := len(got) == len(pay)
+	for i := 0; i < len(got) && i < len(pay); i++ {
+		same = same && got[i] == pay[i]
+	}
+	zzAssert(same, "the callback's reader yields exactly the packet, whatever the size of the callback's buffer")
+	zzAssert(last == io.EOF, "after the packet the callback's reader reports io.EOF")
+	zzAssert(src.Pos()-r.br.Buffered() == 68, "after the uuid box the stream stands at the next box")
+	zzReached("end")
+}
+
+// (e) preview delivery: the preview uuid box holds a PRVW box and, after it, another box: the preview callback's reader
+// yields exactly the PRVW image bytes and then ends; the header carries the size written in the box
+func zzC11_prvw_N() int { return 2 }
+func zzC11_prvw() {
+	jp := zzBytes("j", 12)
+	trail := 16 * zzPart() // 0: PRVW fills the uuid box; 1: a free box follows inside the uuid box
+	const pr = 24 + 8 + 16 + 8
+	N := pr + 8 + 16 + 12 + trail + 16
+	z := &zzBuf{b: make([]byte, N)}
+	z.str(0, zzFtyp)
+	z.box(24, uint32(8+16+8+8+16+12+trail), "uuid")
+	z.str(32, zzUUIDs[2])
+	z.b[55] = 1
+	z.box(pr, 8+16+12, "PRVW")
+	z.b[pr+8+5], z.b[pr+8+7], z.b[pr+8+9], z.b[pr+8+11] = 1, 160, 120, 1
+	z.put32(pr+8+12, 12)
+	for i := range jp {
+		z.b[pr+24+i] = jp[i]
+	}
+	if trail > 0 {
+		z.box(pr+36, 16, "free")
+		for i := 0; i < 8; i++ {
+			z.b[pr+36+8+i] = 0xee
+		}
+	}
+	z.box(N-16, 16, "free")
+	src := zzReaderOf(z.b)
+	r := NewReader(bufio.NewReaderSize(src, 4096))
+	var got []byte
+	var hdr meta.PreviewHeader
+	calls := 0
+	r.PreviewImageReader = func(rd io.Reader, h meta.PreviewHeader) error {
+		calls++
+		hdr = h
+		one := make([]byte, 1)
+		for k := 0; k < 40; k++ {
+			n, err := rd.Read(one)
+			got = append(got, one[:n]...)
+			if err != nil || n == 0 {
+				break
+			}
+		}
+		return nil
+	}
+	zzAssert(r.ReadFTYP() == nil, "ftyp")
+	err := r.ReadMetadata()
+	zzAssert(err == nil && calls == 1, "the preview uuid box is handed to the preview callback once")
+	zzAssert(hdr.Size == 12, "the preview header carries the image size written in the PRVW box")
+	same := len(got) == len(jp)
+	for i := 0; i < len(got) && i < len(jp); i++ {
+		same = same && got[i] == jp[i]
+	}
+	zzAssert(same, "the preview callback's reader yields exactly the image bytes of the PRVW box")
+	zzAssert(src.Pos()-r.br.Buffered() == N-16, "after the uuid box the stream stands at the next top-level box")
 	zzReached("end")
 }
